@@ -9,7 +9,7 @@ ALT_BUILD = True          # a quarter of the workers run the gcc -O0 build (core
 LEVEL = "exploration"
 BUDGET = {"quick": 2500, "thorough": 750000}
 RULE = ("case = op list (assign, concat, append, resize 0/<len/==len/>len (grow by 1-50 or up to a buffer-size boundary), rem, "
-        "mem, print_to at a position (literal, %s, %li, %%, padded, %c, %$ of a String/Int = one small write per character, two "
+        "mem, print_to at a position (literal, %s, %li, %%, padded, %c, one format with %u %lu %x %lX %o %d %li, %$ of a String/Int = one small write per character, two "
         "calls chained through the returned position), cmp/eq/hash against generated others) over one String whose character "
         "buffer is on the heap. The String is reached in a generated way ('holder'): new(String, init), new(String) then assign, "
         "a copy of another heap String (which must keep its value), or the element of an Array / List / value of a Table "
@@ -50,7 +50,7 @@ _operand = st.one_of(
 ).map(list)
 TYPE_NAMES = ["Int", "String", "Float", "Table", "IndexOutOfBoundsError", "C_Str"]
 HOLDERS = ["heap", "heap", "heap", "new0", "copy", "array", "list", "table"]
-PRINT_KINDS = ["lit", "s", "li", "mix", "pct", "pct", "wli", "ws", "c", "show-s", "show-s", "show-i", "chain"]
+PRINT_KINDS = ["lit", "s", "li", "mix", "pct", "pct", "wli", "ws", "c", "show-s", "show-s", "show-i", "chain", "ints"]
 SIZES = [15, 16, 17, 31, 32, 33, 62, 63, 64, 65, 66, 127, 128, 129, 255, 256, 257, 511, 512, 513]
 
 
@@ -294,6 +294,12 @@ def run_case(ctx, case):
                 fmt, args, text = b"%$", ["s:" + s.hex()], show_string(s)        # String's show: one print_to per character
             elif op[2] == "show-i":
                 fmt, args, text = b"=%$=", ["i:%d" % (op[4] * 1000003)], b"=%d=" % (op[4] * 1000003)
+            elif op[2] == "ints":
+                # every integer conversion once, in one format: a conversion that is silently skipped shortens the String
+                v = abs(op[4]) * 7919 + 1
+                fmt = b"u%u lu%lu x%x X%lX o%o d%d i%li;"
+                args = ["i:%d" % v] * 7
+                text = b"u%d lu%d x%x X%X o%o d%d i%d;" % (v, v, v, v, v, v, v)
             elif op[2] == "chain":
                 # pos = print_to(s, pos, ...); pos = print_to(s, pos, ...): the returned position is the next start
                 fmt, args, text = b"%s", ["s:" + s.hex()], s
